@@ -305,12 +305,93 @@ func (s *Store) Bin(op Op, a, b *Term) *Term {
 		}
 	}
 	switch op {
+	case OBAnd:
+		// x & (2^k - 1) is a zero-extended low slice
+		for i := 0; i < 2; i++ {
+			if b.IsConst() && b.K != 0 && b.K&(b.K+1) == 0 {
+				k := bitsLen(b.K)
+				return s.ZExt(s.Extract(a, k-1, 0), w)
+			}
+			a, b = b, a
+		}
+	case OBOr:
+		if t := s.mergeSlices(a, b, w); t != nil {
+			return t
+		}
+	case OAdd:
+		// disjoint slices add like they or
+		if sa, ok := asSlice(a); ok {
+			if sb, ok := asSlice(b); ok && sa.base == sb.base && (sa.shift+sa.width <= sb.shift || sb.shift+sb.width <= sa.shift) {
+				if t := s.mergeSlices(a, b, w); t != nil {
+					return t
+				}
+			}
+		}
+	}
+	switch op {
 	case OAdd, OMul, OBAnd, OBOr, OBXor:
 		if a.ID > b.ID {
 			a, b = b, a
 		}
 	}
 	return s.mk(op, w, 0, 0, "", a, b)
+}
+
+func bitsLen(x uint64) int { return bits.Len64(x) }
+
+// bitSlice describes a term of the form zext(extract[lo+width-1:lo](base)) << shift.
+type bitSlice struct {
+	base             *Term
+	lo, width, shift int
+}
+
+func asSlice(t *Term) (bitSlice, bool) {
+	shift := 0
+	if t.Op == OShl && t.Args[1].IsConst() {
+		shift = int(t.Args[1].K)
+		t = t.Args[0]
+	}
+	if t.Op == OZExt {
+		t = t.Args[0]
+	}
+	switch t.Op {
+	case OExtract:
+		return bitSlice{t.Args[0], t.K2, t.W, shift}, true
+	case OVar, OUF:
+		return bitSlice{t, 0, t.W, shift}, true
+	}
+	return bitSlice{}, false
+}
+
+func (s *Store) sliceTerm(b bitSlice, w int) *Term {
+	t := s.ZExt(s.Extract(b.base, b.lo+b.width-1, b.lo), w)
+	if b.shift > 0 {
+		t = s.Bin(OShl, t, s.BV(w, uint64(b.shift)))
+	}
+	return t
+}
+
+// mergeSlices joins two adjacent bit slices of the same base term (a | b).
+func (s *Store) mergeSlices(a, b *Term, w int) *Term {
+	sa, ok := asSlice(a)
+	if !ok {
+		return nil
+	}
+	sb, ok := asSlice(b)
+	if !ok || sa.base != sb.base {
+		return nil
+	}
+	if sa.shift > sb.shift {
+		sa, sb = sb, sa
+	}
+	// sa is the lower slice; adjacent in the result and in the base
+	if sa.shift+sa.width != sb.shift || sa.lo+sa.width != sb.lo {
+		return nil
+	}
+	if sb.shift+sb.width > w {
+		return nil
+	}
+	return s.sliceTerm(bitSlice{sa.base, sa.lo, sa.width + sb.width, sa.shift}, w)
 }
 
 func foldBin(op Op, w int, x, y uint64) (uint64, bool) {
@@ -438,6 +519,37 @@ func (s *Store) Extract(a *Term, hi, lo int) *Term {
 	}
 	if a.Op == OExtract {
 		return s.Extract(a.Args[0], hi+a.K2, lo+a.K2)
+	}
+	if a.Op == OLShr && a.Args[1].IsConst() {
+		k := int(a.Args[1].K)
+		if hi+k < a.W {
+			return s.Extract(a.Args[0], hi+k, lo+k)
+		}
+		if lo+k >= a.W {
+			return s.BV(w, 0)
+		}
+	}
+	if a.Op == OShl && a.Args[1].IsConst() {
+		k := int(a.Args[1].K)
+		if lo >= k {
+			return s.Extract(a.Args[0], hi-k, lo-k)
+		}
+		if hi < k {
+			return s.BV(w, 0)
+		}
+	}
+	if a.Op == OBOr || a.Op == OBAnd || a.Op == OBXor {
+		// bitwise operators commute with extraction
+		return s.Bin(a.Op, s.Extract(a.Args[0], hi, lo), s.Extract(a.Args[1], hi, lo))
+	}
+	if a.Op == OConcat {
+		lw := a.Args[1].W
+		if hi < lw {
+			return s.Extract(a.Args[1], hi, lo)
+		}
+		if lo >= lw {
+			return s.Extract(a.Args[0], hi-lw, lo-lw)
+		}
 	}
 	return s.mk(OExtract, w, uint64(hi), lo, "", a)
 }
